@@ -243,6 +243,7 @@ class Woven:
         self.annot_tokens = 0
         self.new_tokens = 0
         self.removed_tokens = 0
+        self.notes = ''
         self.body_open_lines = []   # 0-based line offsets (in text) of the `{` opening each fn body
 
 
@@ -287,6 +288,7 @@ def weave(e_src, e0_src, p_src):
                     last = me[i0]
         p2e0 = {j: i0 for i0, j in enumerate(m0)}
         next_e = 0       # next E token not yet emitted
+        del_pos = None   # output index where the first deleted code token since the last kept code token was
         for j, t in enumerate(p_toks):
             if not is_code[j]:
                 out.append((t.t, 'annot', p_sep(j)))
@@ -295,29 +297,61 @@ def weave(e_src, e0_src, p_src):
             ie = me[i0]
             if ie is None:
                 w.removed_tokens += 1
+                if del_pos is None:
+                    del_pos = len(out)
                 continue
-            # emit any new E tokens before ie
-            # (placed right before this code token but after the annotations already emitted: move them
-            #  back before the trailing annotation run so that new code follows the previous code token)
+            # emit any new E tokens before ie: a replacement takes the place of the tokens it replaces; a pure
+            # insertion follows the previous code token (before the annotations that precede the next code token)
+            inserted = False
             if next_e < ie:
-                k = len(out)
-                while k > 0 and out[k - 1][1] == 'annot':
-                    k -= 1
+                if del_pos is not None:
+                    k = del_pos
+                else:
+                    k = len(out)
+                    while k > 0 and out[k - 1][1] == 'annot':
+                        k -= 1
                 ins = []
                 for x in range(next_e, ie):
                     ins.append((e_toks[x].t, 'new', e_sep(x) or ' '))
                     w.new_tokens += 1
                 out[k:k] = ins
                 inserted = bool(ins) and k == len(out) - len(ins)
-            else:
-                inserted = False
             out.append((t.t, 'code', (e_sep(ie) or ' ') if inserted else p_sep(j)))
             next_e = ie + 1
+            del_pos = None
         if next_e < len(e_toks):
             for x in range(next_e, len(e_toks)):
                 out.append((e_toks[x].t, 'new', e_sep(x) or ' '))
                 w.new_tokens += 1
         tail = '\n'
+    # new loops (code that is not in the pinned extraction) have no invariant/decreases: let Verus ingest the function
+    # anyway (its other obligations then decide) instead of rejecting the unit
+    new_loops = [i for i, (t, tag, _) in enumerate(out) if tag == 'new' and t in ('while', 'loop', 'for')]
+    if new_loops:
+        code_pos = [i for i, (t, tag, _) in enumerate(out) if tag != 'annot']
+        ins_at = set()
+        for nl in new_loops:
+            # innermost enclosing fn: scan code tokens backwards for `fn` whose body contains nl
+            k = len([c for c in code_pos if c < nl]) - 1
+            depth = 0
+            while k >= 0:
+                t = out[code_pos[k]][0]
+                if t == '}':
+                    depth += 1
+                elif t == '{':
+                    depth -= 1
+                elif t == 'fn' and depth < 0:
+                    q = k
+                    while q > 0 and out[code_pos[q - 1]][0] in ('pub', 'unsafe', 'const'):
+                        q -= 1
+                    ins_at.add(code_pos[q])
+                    break
+                k -= 1
+        for pos in sorted(ins_at, reverse=True):
+            sep = out[pos][2]
+            out[pos] = (out[pos][0], out[pos][1], ' ')
+            out.insert(pos, ('#[verifier::exec_allows_no_decreases_clause]', 'annot', sep))
+        w.notes = 'new loop(s) without contract in %d function(s)' % len(ins_at)
     # render + line tags
     pieces = []
     line = 0
